@@ -26,7 +26,7 @@ ClsOf(e) ==
 
 \* what the harness asks through REST for a model-level request kind, and what the model says the answer is
 RqOf(e) ==
-   LET z == [cls |-> "", valid |-> FALSE, etype |-> "", wdn |-> 0, nln |-> 0, ats |-> <<>>, ibgp |-> FALSE, lp |-> -1, aspl |-> -1] IN
+   LET z == [cls |-> "", valid |-> FALSE, etype |-> "", wdn |-> 0, nln |-> 0, ats |-> <<>>, ibgp |-> FALSE, lp |-> -1, aspl |-> -1, rr |-> <<-1, -1, -1>>] IN
    IF e.k # "rest" THEN z
    ELSE CASE e.m \in {"SEND_UPDATE", "BADCRED_SEND"} -> [z EXCEPT !.cls = "send", !.valid = TRUE, !.etype = "UPDATE", !.nln = 1, !.ats = <<1, 2, 3>>]
           [] e.m = "SEND_RR" -> [z EXCEPT !.cls = "send", !.valid = TRUE, !.etype = "RR"]
@@ -50,7 +50,7 @@ LineOf(a, e, b) ==
     pst |-> a.st, st |-> b.st, plive |-> Cardinality(LiveSet(a)), live |-> Cardinality(LiveSet(b)),
     ptr |-> a.cur, tr |-> b.trk, ptrcs |-> CsOf(a, a.cur), trcs |-> b.trks,
     pleak |-> LeakOf(a), leak |-> LeakOf(b), pend |-> PendOf(b),
-    out |-> [k \in 1..Len(b.out) |-> b.out[k] @@ [wdn |-> 0, nln |-> 1, ats |-> <<1, 2, 3>>, lp |-> -1, aspl |-> -1]], rep |-> b.rep, closes |-> b.cl, att |-> b.att, exc |-> 0, hang |-> FALSE,
+    out |-> [k \in 1..Len(b.out) |-> b.out[k] @@ [wdn |-> 0, nln |-> 1, ats |-> <<1, 2, 3>>, lp |-> -1, aspl |-> -1, rr |-> <<-1, -1, -1>>]], rep |-> b.rep, closes |-> b.cl, att |-> b.att, exc |-> 0, hang |-> FALSE,
     sS |-> <<>>, sR |-> <<>>, wS |-> <<>>, wR |-> <<>>, fz |-> "", flen |-> 0, probeok |-> TRUE, rptsame |-> TRUE, aspathok |-> TRUE, acc |-> 0, esub |-> 0,
     rq |-> RqOf(e), statsame |-> (b.out = <<>>), rest |-> RestOf(e, a)]
 \* in the model "manual stop in force" is exactly allow_automatic_start = FALSE
